@@ -101,15 +101,6 @@ def trimLeft : List B → List B
 def mjmlNeedle : List B := [60, 109, 106, 109, 108]        -- "<mjml"
 def startsCI (needle s : List B) : Bool := needle.length ≤ s.length && (s.take needle.length).map lower == needle
 
-/-- split at the first case-insensitive `<mjml`: (prefix, rest starting at the tag) -/
-def splitAtRoot : List B → Option (List B × List B)
-  | [] => none
-  | b :: r =>
-    if startsCI mjmlNeedle (b :: r) then some ([], b :: r)
-    else match splitAtRoot r with
-      | some (p, q) => some (b :: p, q)
-      | none => none
-
 def cOpen : List B := [60, 33, 45, 45]      -- "<!--"
 def cClose : List B := [45, 45, 62]         -- "-->"
 
@@ -125,6 +116,27 @@ theorem afterClose_length : ∀ (s r : List B), afterClose s = some r → r.leng
     split at h
     · simp at h; subst h; simp [List.length_drop]; omega
     · have := afterClose_length t r h; simp; omega
+
+/-- index of the first case-insensitive `<mjml` that does not stand inside a comment (`findMjmlTagIndex`): a comment is skipped
+    as a whole; an unterminated comment means there is no root -/
+def rootIdx (s : List B) : Option Nat :=
+  match s with
+  | [] => none
+  | b :: r =>
+    if startsCI mjmlNeedle (b :: r) then some 0
+    else if cOpen.isPrefixOf (b :: r) then
+      match h : afterClose ((b :: r).drop 4) with
+      | some rest => (rootIdx rest).map (· + ((b :: r).length - rest.length))
+      | none => none
+    else (rootIdx r).map (· + 1)
+termination_by s.length
+decreasing_by
+  · have := afterClose_length _ _ h
+    simp only [List.length_drop, List.length_cons] at this ⊢; omega
+  · simp
+
+/-- split at the root: (prefix, rest starting at the tag) -/
+def splitAtRoot (s : List B) : Option (List B × List B) := (rootIdx s).map (fun i => (s.take i, s.drop i))
 
 /-- remove every `<!-- … -->` from the prefix; an unterminated comment drops the rest of the prefix -/
 def dropComments (s : List B) : List B :=
@@ -161,28 +173,37 @@ open Gomjml.Amp
 /-- blank lines / indentation in front of the root element are ignored -/
 theorem strip_ws (p root : List B) (hp : ∀ b ∈ p, isWs b = true) (hr : startsCI mjmlNeedle root = true) :
     strip (p ++ root) = root := by
-  have hsplit : ∀ (p : List B), (∀ b ∈ p, isWs b = true) → splitAtRoot (p ++ root) = some (p, root) := by
+  have hidx : ∀ (p : List B), (∀ b ∈ p, isWs b = true) → rootIdx (p ++ root) = some p.length := by
     intro p
     induction p with
     | nil =>
       intro _
       cases root with
       | nil => simp [startsCI, mjmlNeedle] at hr
-      | cons b r => simp [splitAtRoot, hr]
+      | cons b r => rw [List.nil_append, rootIdx]; simp [hr]
     | cons b r ih =>
       intro h
       have hb := h b (by simp)
+      have hb' : ((b = 32 ∨ b = 9) ∨ b = 13) ∨ b = 10 := by
+        unfold isWs at hb; simpa [Bool.or_eq_true] using hb
       have hno : startsCI mjmlNeedle (b :: (r ++ root)) = false := by
         unfold startsCI mjmlNeedle
         simp only [List.length_cons, List.length_nil, List.take_succ_cons, List.map_cons]
         have : lower b ≠ 60 := by
-          unfold isWs at hb
           unfold lower
-          have hb' : ((b = 32 ∨ b = 9) ∨ b = 13) ∨ b = 10 := by simpa [Bool.or_eq_true] using hb
           rcases hb' with ((rfl | rfl) | rfl) | rfl <;> decide
         cases hlen : decide (0 + 1 + 1 + 1 + 1 + 1 ≤ (r ++ root).length + 1) <;> simp [hlen, this]
-      simp only [List.cons_append, splitAtRoot, hno, Bool.false_eq_true, if_false]
+      have hnc : cOpen.isPrefixOf (b :: (r ++ root)) = false := by
+        rcases hb' with ((rfl | rfl) | rfl) | rfl <;> simp [cOpen, List.isPrefixOf]
+      rw [List.cons_append, rootIdx]
+      simp only [hno, hnc, Bool.false_eq_true, if_false]
       rw [ih (fun x hx => h x (by simp [hx]))]
+      simp
+  have hsplit : ∀ (p : List B), (∀ b ∈ p, isWs b = true) → splitAtRoot (p ++ root) = some (p, root) := by
+    intro p h
+    unfold splitAtRoot
+    rw [hidx p h]
+    simp
   unfold strip
   rw [hsplit p hp]
   simp only
